@@ -138,6 +138,7 @@ func famIntent(o *Out, r R, tier string) {
 				}
 				method := fetchNormalize(r.pick(meths))
 				universe := []string{"authorization", "content-type", "x-foo", "x-bar", "x-unlisted", "x-abc", "accept"}
+				allListed := false
 				for _, x := range c.RequestHeaders {
 					if x != "*" {
 						universe = append(universe, strings.ToLower(x))
@@ -147,6 +148,15 @@ func famIntent(o *Out, r R, tier string) {
 				for k := r.Intn(4); k > 0; k-- {
 					sel[r.pick(universe)] = true
 				}
+				if len(c.RequestHeaders) >= 8 && r.chance(1, 3) { // a long allow-list requested in full (budgets on the total length)
+					allListed = true
+					for _, x := range c.RequestHeaders {
+						if x != "*" {
+							sel[strings.ToLower(x)] = true
+						}
+					}
+				}
+				_ = allListed
 				var hs []string
 				for n := range sel {
 					hs = append(hs, n)
@@ -299,6 +309,14 @@ func minimalInvalidations(a cors.Config) []cors.Config {
 	add(func(c *cors.Config) { c.MaxAgeInSeconds = -1; c.Methods = append(c.Methods, "CONNECT") })
 	add(func(c *cors.Config) { c.MaxAgeInSeconds = -1; c.Origins = append(c.Origins, "https://example.com/") })
 	add(func(c *cors.Config) { c.MaxAgeInSeconds = -1; c.PreflightSuccessStatus = 199 })
+	// a violation listed AFTER a wildcard in each list (the wildcard subsumes valid names, not invalid ones)
+	add(func(c *cors.Config) { c.Methods = []string{"*", "TRACE"} })
+	add(func(c *cors.Config) { c.Methods = []string{"*", "r\u00e9sum\u00e9", "PUT"} })
+	add(func(c *cors.Config) { c.RequestHeaders = []string{"*", "Cookie"} })
+	add(func(c *cors.Config) { c.ResponseHeaders = []string{"*", "Set-Cookie"} })
+	add(func(c *cors.Config) {
+		c.Origins, c.Credentialed, c.PrivateNetworkAccess, c.PrivateNetworkAccessInNoCORSModeOnly = []string{"*", "https://exa mple.com"}, false, false, false
+	})
 	// the current lists with their elements joined into ONE element by a separator a serialisation might use: the
 	// result is a different, invalid configuration that prints like the current one
 	for _, sep := range []string{",", ", ", ";", " ", "\x00", "\n"} {
